@@ -407,6 +407,19 @@ def cases(draw, max_events=50):
                 vals[draw(st.integers(0, n - 1))] = 3
             c["rates"] = [float(v) for v in vals]
             c["dyadic"] = "int"
+    if not dyadic and draw(st.integers(0, 2)) == 0 and len(c["rates"]) >= 4:
+        # general (non-dyadic) rates ending and/or starting with zero-rate bins: the float cumulative total may round below the
+        # pairwise sum, and the draws 0.0 and 1-2^-53 must still land in the first / last bin of positive rate
+        nz = draw(st.integers(1, min(3, len(c["rates"]) - 2)))
+        where = draw(st.sampled_from(["tail", "tail", "head", "both"]))
+        if where in ("tail", "both"):
+            c["rates"][-nz:] = [0.0] * nz
+        if where in ("head", "both"):
+            c["rates"][:1] = [0.0]
+        if not any(r > 0 for r in c["rates"]):
+            c["rates"][1] = 0.37
+        occupied = set(i * c["mags"]["n"] + j for i, j in c["obs"])
+        c["obs"] = [o for o in c["obs"] if c["rates"][o[0] * c["mags"]["n"] + o[1]] > 0] or c["obs"][:0]
     n = max(len(c["obs"]), 1)
     k = draw(st.integers(1, 6))
     modes = ["in", "in", "zero", "max"] + (["lo", "lo+", "lo-", "hi-"] if dyadic else [])
